@@ -481,7 +481,13 @@ def write_evidence(pid, tier, seed, level, coverage, wall_s, violations, assumpt
         "violations": int(violations),
         "repo": repo_state(),
     }
-    p = os.path.join(VERIF, "evidence", pid + ".json")
+    edir = os.path.join(VERIF, "evidence")
+    if os.path.realpath(REPO) != "/repo":
+        # a run against a private worktree (mutation testing through VERIF_REPO) must not overwrite the
+        # evidence of /repo itself
+        edir = os.path.join(VERIF, "build", "evidence-alt")
+        os.makedirs(edir, exist_ok=True)
+    p = os.path.join(edir, pid + ".json")
     tmp = p + ".tmp%d" % os.getpid()
     with open(tmp, "w") as f:
         json.dump(ev, f, indent=1, sort_keys=True)
